@@ -85,6 +85,20 @@ impl<'a> ProjectionStrategy for AggregationProjection<'a> {
             .collect::<Vec<String>>();
         set.add_many(filtered);
 
+        // FOR <context> and SINCE select rows, not only zones: load the columns their
+        // row-level conditions read
+        if self.plan.context_id().is_some() {
+            set.add("context_id");
+        }
+        if let Command::Query {
+            since: Some(_),
+            time_field,
+            ..
+        } = &self.plan.command
+        {
+            set.add(time_field.as_deref().unwrap_or("timestamp"));
+        }
+
         // group by
         if let Some(group_by) = &self.agg.group_by {
             for g in group_by {
